@@ -56,12 +56,12 @@ namespace simmpi
 
     enum CollKind { K_BARRIER = 1, K_BCAST, K_GATHER, K_SCATTER, K_ALLGATHER, K_ALLGATHERV, K_ALLTOALL, K_ALLTOALLV,
                     K_REDUCE, K_ALLREDUCE, K_SCAN, K_EXSCAN, K_COMM_DUP, K_COMM_CREATE, K_COMM_SPLIT,
-                    K_FILE_OPEN, K_FILE_CLOSE, K_FILE_SETSIZE, K_FILE_RORD, K_FILE_WORD };
+                    K_FILE_OPEN, K_FILE_CLOSE, K_FILE_SETSIZE, K_FILE_RORD, K_FILE_WORD, K_FILE_RATALL, K_FILE_WATALL };
     const char* kind_name(int k)
     {
       static const char* n[] = {"?", "Barrier", "Bcast", "Gather", "Scatter", "Allgather", "Allgatherv", "Alltoall", "Alltoallv", "Reduce",
-        "Allreduce", "Scan", "Exscan", "Comm_dup", "Comm_create", "Comm_split", "File_open", "File_close", "File_set_size", "File_read_ordered", "File_write_ordered"};
-      return (k >= 1 && k <= 20) ? n[k] : "?";
+        "Allreduce", "Scan", "Exscan", "Comm_dup", "Comm_create", "Comm_split", "File_open", "File_close", "File_set_size", "File_read_ordered", "File_write_ordered", "File_read_at_all", "File_write_at_all"};
+      return (k >= 1 && k <= 22) ? n[k] : "?";
     }
 
     struct Slot
@@ -1226,6 +1226,49 @@ extern "C"
     if(st) { st->MPI_SOURCE = MPI_PROC_NULL; st->MPI_TAG = MPI_ANY_TAG; st->MPI_ERROR = 0; st->_bytes = int(got); }
     ++G->cnt.file_ops;
     leave(e);
+    return MPI_SUCCESS;
+  }
+  // explicit-offset access: the data movement of each rank is independent of the shared file pointer; the _all variants are
+  // collective over the file's communicator (matched by call order, may complete early like any collective)
+  static int file_at(MPI_File fh, MPI_Offset off, void* rbuf, const void* wbuf, int count, MPI_Datatype dt, MPI_Status* st, bool write, bool coll, const char* fn)
+  {
+    entry(fn);
+    FileRec& fr = file_rec(fh, fn);
+    if(off < 0) usage(std::string(fn) + ": negative offset");
+    const size_t bytes = size_t(count) * dt_size(dt), o = size_t(off);
+    size_t done = bytes;
+    if(write)
+    {
+      if(fr.f->data.size() < o + bytes) fr.f->data.resize(o + bytes, 0);
+      if(bytes) memcpy(fr.f->data.data() + o, wbuf, bytes);
+    }
+    else
+    {
+      const size_t avail = o < fr.f->data.size() ? fr.f->data.size() - o : 0;
+      done = std::min(bytes, avail);
+      if(done) memcpy(rbuf, fr.f->data.data() + o, done);
+    }
+    if(st) { st->MPI_SOURCE = MPI_PROC_NULL; st->MPI_TAG = MPI_ANY_TAG; st->MPI_ERROR = 0; st->_bytes = int(done); }
+    ev(write ? "file_write_at" : "file_read_at", uint64_t(fh), o, done);
+    ++G->cnt.file_ops;
+    if(coll)
+    {
+      Entered e = enter(fr.comm, write ? K_FILE_WATALL : K_FILE_RATALL, -1, (long long)fh, nullptr, 0, fn);
+      wait_slot(e, fn);
+      leave(e);
+    }
+    hot();
+    return MPI_SUCCESS;
+  }
+  int MPI_File_write_at(MPI_File fh, MPI_Offset off, const void* buf, int count, MPI_Datatype dt, MPI_Status* st) { return file_at(fh, off, nullptr, buf, count, dt, st, true, false, "MPI_File_write_at"); }
+  int MPI_File_write_at_all(MPI_File fh, MPI_Offset off, const void* buf, int count, MPI_Datatype dt, MPI_Status* st) { return file_at(fh, off, nullptr, buf, count, dt, st, true, true, "MPI_File_write_at_all"); }
+  int MPI_File_read_at(MPI_File fh, MPI_Offset off, void* buf, int count, MPI_Datatype dt, MPI_Status* st) { return file_at(fh, off, buf, nullptr, count, dt, st, false, false, "MPI_File_read_at"); }
+  int MPI_File_read_at_all(MPI_File fh, MPI_Offset off, void* buf, int count, MPI_Datatype dt, MPI_Status* st) { return file_at(fh, off, buf, nullptr, count, dt, st, false, true, "MPI_File_read_at_all"); }
+  int MPI_File_get_size(MPI_File fh, MPI_Offset* size)
+  {
+    entry("MPI_File_get_size");
+    FileRec& fr = file_rec(fh, "MPI_File_get_size");
+    *size = MPI_Offset(fr.f->data.size());
     return MPI_SUCCESS;
   }
   int MPI_File_read_ordered(MPI_File fh, void* buf, int count, MPI_Datatype dt, MPI_Status* st) { return file_ordered(fh, buf, nullptr, count, dt, st, false, "MPI_File_read_ordered"); }
